@@ -123,6 +123,7 @@ type LemmaInduct struct {
 
 type Registry struct {
 	ElemInvs   []*MapInv // invariants on every element stored in any slice of the given type
+	FrameSets  map[string][]string
 	Lemmas     map[string]*Lemma
 	LemmaOrder []string
 	Monitors   []*Monitor
@@ -142,7 +143,7 @@ func newRegistry() *Registry {
 var stmtKeywords = map[string]bool{
 	"package": true, "func": true, "requires": true, "ensures": true, "assume_ensures": true, "assert_at": true, "assume_at": true, "modifies": true, "loop": true,
 	"invariant": true, "option": true, "trusted": true, "pure": true, "spec": true, "ufunc": true,
-	"axiom": true, "ghost": true, "decreases": true, "opaque": true, "macro": true, "mapvalues": true, "elemvalues": true, "guarded": true, "monitor": true, "lemma": true, "induct": true,
+	"axiom": true, "ghost": true, "decreases": true, "opaque": true, "macro": true, "mapvalues": true, "elemvalues": true, "guarded": true, "monitor": true, "frameset": true, "lemma": true, "induct": true,
 }
 
 type rawStmt struct {
@@ -340,8 +341,20 @@ func (r *Registry) loadContractFile(path string, pkgPath string) error {
 				return fail("modifies outside func")
 			}
 			cur.HasMod = true
+			var items []string
 			for _, m := range strings.Split(s.rest, ",") {
 				m = strings.TrimSpace(m)
+				if strings.HasPrefix(m, "@") {
+					fs, ok := r.FrameSets[m[1:]]
+					if !ok {
+						return fail("unknown frameset %s", m)
+					}
+					items = append(items, fs...)
+					continue
+				}
+				items = append(items, m)
+			}
+			for _, m := range items {
 				if m != "" && m != "nothing" {
 					if curLoop >= 0 {
 						cur.LoopMods[curLoop] = append(cur.LoopMods[curLoop], m)
@@ -350,6 +363,26 @@ func (r *Registry) loadContractFile(path string, pkgPath string) error {
 					}
 				}
 			}
+		case "frameset":
+			// frameset name: comp, comp, ...   (a named list for use as "@name" in modifies clauses)
+			name, text, ok := strings.Cut(s.rest, ":")
+			if !ok {
+				return fail("frameset needs 'name: items'")
+			}
+			var items []string
+			for _, m := range strings.Split(text, ",") {
+				m = strings.TrimSpace(m)
+				if strings.HasPrefix(m, "@") {
+					items = append(items, r.FrameSets[m[1:]]...)
+				} else if m != "" {
+					items = append(items, m)
+				}
+			}
+			if r.FrameSets == nil {
+				r.FrameSets = map[string][]string{}
+			}
+			r.FrameSets[strings.TrimSpace(name)] = items
+			cur = nil
 		case "option":
 			if cur == nil {
 				return fail("option outside func")
